@@ -50,8 +50,9 @@ def report(ses, results, what, prop_violation_text, replay_recipe=None):
         ses.queries.append({'name': 'kani harness %s (%s)' % (r['harness'], what), 'verdict': 'unsat' if r['status'] == 'SUCCESSFUL' else ('sat' if r['status'] == 'FAILED' else 'unknown'),
                             'expected': 'unsat', 'solver': 'kani 0.68 / cbmc 6.11 / cadical', 'agree': [], 'time_s': r['time_s'], 'lemma_instances': 0, 'per_solver': {}})
         if r['status'] == 'SUCCESSFUL': continue
-        unwinding = any('unwinding assertion' in f for f in r['failed_checks'])
-        if r['status'] == 'FAILED' and not unwinding:
+        unwinding = any('unwinding assertion' in f or 'unwinding value' in f for f in r['failed_checks']) or 'unwinding value' in r['log_tail']
+        unsupported = 'not currently supported by Kani' in r['log_tail'] or any('not currently supported' in f for f in r['failed_checks'])
+        if r['status'] == 'FAILED' and not unwinding and not unsupported:
             v = {'what': '%s (Kani harness %s: %s)' % (prop_violation_text, r['harness'], '; '.join(r['failed_checks'])[:300]), 'detail': {'log_tail': r['log_tail'][-800:]},
                  'replay': replay_recipe or {'kani_confirmed': True, 'harness': r['harness']}, 'key': None}
             ses.violations.append(v)
@@ -214,3 +215,50 @@ def job_key_hex(ses):
            replay_recipe={'steps': [{'op': 'key_hex', 'size': 32, 'hex': h, 'out': 'R%d' % i} for i, h in enumerate(['', '00', '0000', 'zz', '0' * 62, '0' * 66])],
                           'violated_if': [[{'var': 'R%d' % i, 'is': 'panic'}] for i in range(6)]})
     ses.bounds['kani k4_key_hex'] = 'Key<1>, Key<2>; ASCII strings of length 0,2,3,4,6'
+
+
+# ----------------------------------------------------------------------------- K3: Footer::constant_time_equals == (base64url(footer) == segment), bit-precise on the compiled code
+K3 = '''
+use crate::core::{Footer, Base64Encodable};
+use base64::prelude::*;
+
+macro_rules! k3 {
+    ($name:ident, $fl:expr, $sl:expr) => {
+        #[kani::proof]
+        #[kani::unwind(12)]
+        #[kani::stub(ring::deprecated_constant_time::verify_slices_are_equal, ct_eq_stub)]
+        fn $name() {
+            let fb: [u8; $fl] = kani::any();
+            let mut i = 0; while i < $fl { kani::assume(fb[i] < 0x80); i += 1; }
+            let sb: [u8; $sl] = kani::any();
+            let mut j = 0; while j < $sl { kani::assume(sb[j] < 0x80); j += 1; }
+            let f = Footer::from(str_unchecked(&fb));
+            let seg = str_unchecked(&sb);
+            let want = BASE64_URL_SAFE_NO_PAD.encode(&fb);
+            let wb = want.as_bytes();
+            let mut same = wb.len() == $sl;
+            let mut k = 0; while k < $sl && k < wb.len() { if wb[k] != sb[k] { same = false; } k += 1; }
+            let got = f.constant_time_equals(seg);
+            assert!(got == same, "constant_time_equals(footer, segment) == (base64url(footer) == segment)");
+            kani::cover!(got, "equal case reachable");
+            std::mem::forget(want);
+        }
+    };
+}
+k3!(k3_footer1_seg2, 1, 2);
+k3!(k3_footer1_seg1, 1, 1);
+k3!(k3_footer1_seg3, 1, 3);
+k3!(k3_footer2_seg3, 2, 3);
+k3!(k3_footer0_seg0, 0, 0);
+k3!(k3_footer0_seg1, 0, 1);
+'''
+
+
+def job_footer_compare(ses):
+    hs = ['core::verif_harness::k3_footer1_seg2', 'core::verif_harness::k3_footer1_seg1', 'core::verif_harness::k3_footer1_seg3', 'core::verif_harness::k3_footer0_seg0', 'core::verif_harness::k3_footer0_seg1']
+    if ses.tier == 'thorough': hs.append('core::verif_harness::k3_footer2_seg3')
+    res = run_kani(K3, 'src/core/mod.rs', hs, timeout=900, support=True)
+    report(ses, res, 'Footer::constant_time_equals(segment) == (base64url(footer) == segment) for footers of 0-1 (2) ASCII bytes and segments of 0-3 ASCII bytes, on the compiled code with the real base64 crate',
+           'the footer comparison accepts a segment that is not the base64url encoding of the expected footer (or rejects the right one)',
+           replay_recipe={'kind': 'footer_compare'})
+    ses.bounds['kani k3_footer_compare'] = 'footer 0-1 bytes (2 in thorough), segment 0-3 bytes, ASCII, unwind 12'
